@@ -110,6 +110,10 @@ func (r *RNN) Apply(inputs []tensor.Tensor) ([]tensor.Tensor, error) {
 		return nil, err
 	}
 
+	if len(r.activations) != 1 {
+		return nil, ops.ErrInvalidAttribute(ops.ActivationsAttr, r)
+	}
+
 	activation, err := ops.GetActivation(r.activations[0])
 	if err != nil {
 		return nil, err
